@@ -254,6 +254,11 @@ Section Cloner.
   Definition attr_name_of (a : id) : M name := x <- get_attr a ;; ret (a_name x).
   Definition value_name_of (v : id) : M (option name) := x <- get_value v ;; ret (v_name x).
 
+  (* clone_graph, after the outputs are looked up: a value passed through as an outer-scope value that has a clone
+     in the value map was used before its definition -> ValueError (re-raised as RuntimeError) *)
+  Definition check_passed : M unit :=
+    fun st => if forallb (unmapped (vmap st)) (passed st) then (st, Ok tt) else (st, Raise RuntimeError).
+
   Section Rec.
     Variable rec_graph : id -> M id.     (* clone_graph at the next recursion depth *)
 
@@ -284,6 +289,7 @@ Section Cloner.
       inits <- mapM clone_or_get_value (map snd (g_inits g)) ;;
       nodes <- mapM clone_node (g_nodes g) ;;
       outs <- mapM get_mapped (g_outputs g) ;;
+      _ <- check_passed ;;
       keys <- mapM value_name_of inits ;;
       ops <- clone_dict (g_opset g) ;;
       mp <- clone_dict (g_mp g) ;;
